@@ -184,6 +184,22 @@ class Rig:
         rpy, exc = self.execute(req)
         return self.model.judge(req, rpy, exc, self.sim.store())
 
+    def views_of(self, req):
+        """every whole-tag read view (Read Tag, Read Tag Fragmented by name; Get Attribute Single by address) of the tag a write
+        request addressed: a write must be visible through ALL of them at once, not only through the store"""
+        a = req[1]
+        if a[0] == "sym":
+            names = [n for n in self.types if n.lower() == a[1].lower()]
+        else:
+            names = [n for n, adr in self.sim.addr_of.items() if tuple(adr[:2]) == tuple(a[1:3]) and (a[3] is None or adr[2] == a[3])]
+        for name in names[:1]:
+            ln = dict((n, l) for n, _, l, _ in self.cfg)[name]
+            n = 1 if ln is None else ln
+            c, i, at = self.sim.addr_of[name]
+            yield ("gas", ("cia", c, i, at, None))
+            yield ("rd", ("sym", name, None), n)
+            yield ("rf", ("sym", name, None), n, 0)
+
     def state(self):
         """canonical (wire-equivalent) form of the simulator's current store"""
         return self.model.canon(self.sim.store())
